@@ -36,3 +36,11 @@ for d in sorted(os.listdir(os.path.join(ROOT, "seeded"))):
     meta["patch_used"] = "patch.rebased.diff" if os.path.exists(os.path.join(ROOT, "seeded", d, "patch.rebased.diff")) else "patch.diff"
     json.dump(meta, open(p, "w"), indent=1)
     print(d, exp)
+
+# the tree these expectations belong to (the thorough tier enforces the replay only on this tree)
+import hashlib, subprocess
+tree = subprocess.run([os.path.join(ROOT, "bin", "upfcheck"), "-tree-hash", "-repo", "/repo"], capture_output=True, text=True).stdout.strip()
+rc = hashlib.sha256(open("/repo/conf/route_control.py", "rb").read()).hexdigest()
+head = subprocess.run(["git", "-C", "/repo", "rev-parse", "--short", "HEAD"], capture_output=True, text=True).stdout.strip()
+json.dump({"tree": tree, "route_control.py": rc, "repo_head": head}, open(os.path.join(ROOT, "seeded", "BASE_TREE.json"), "w"), indent=1)
+print("base tree", tree, head)
